@@ -264,9 +264,10 @@ class Result:
                     name, expect_violation, r["violated"], r["out"][-3000:]))
 
     def violation(self, what, replay_obj):
-        os.makedirs(os.path.join(V, "replays"), exist_ok=True)
+        rdir = os.path.join(V, "replays") if REPO == "/repo" else os.path.join(BUILD, "replays")
+        os.makedirs(rdir, exist_ok=True)
         n = len(self.violations) + 1
-        path = os.path.join(V, "replays", "%s-%d-%d.json" % (self.pid, self.seed, n))
+        path = os.path.join(rdir, "%s-%d-%d.json" % (self.pid, self.seed, n))
         replay_obj = dict(replay_obj)
         replay_obj.update({"property": self.pid, "seed": self.seed, "tier": self.tier, "what": what})
         with open(path, "w") as f:
